@@ -500,8 +500,26 @@ impl JoinPlanner {
             return ir;
         }
 
+        // A Union combines independent rule bodies (one per clause of the head).
+        // Each branch has its own join tree, so plan every branch on its own:
+        // collecting the scans of all branches into one join graph would replace
+        // the Union by a single join over unrelated clauses.
+        if let IRNode::Union { inputs } = ir {
+            return IRNode::Union {
+                inputs: inputs
+                    .into_iter()
+                    .map(|input| self.plan_joins(input))
+                    .collect(),
+            };
+        }
+
         // Only optimize if there are joins
         if !Self::has_joins(&ir) {
+            return ir;
+        }
+
+        // A Union nested below other operators cannot be flattened into a join graph
+        if Self::has_union(&ir) {
             return ir;
         }
 
@@ -577,6 +595,25 @@ impl JoinPlanner {
             IRNode::FlatMap { input, .. } => Self::has_joins(input),
             IRNode::JoinFlatMap { left, right, .. } => {
                 Self::has_joins(left) || Self::has_joins(right)
+            }
+        }
+    }
+
+    /// Check if IR contains any Union nodes
+    fn has_union(ir: &IRNode) -> bool {
+        match ir {
+            IRNode::Union { .. } => true,
+            IRNode::Scan { .. } | IRNode::HnswScan { .. } => false,
+            IRNode::Map { input, .. }
+            | IRNode::Filter { input, .. }
+            | IRNode::Distinct { input }
+            | IRNode::Aggregate { input, .. }
+            | IRNode::Compute { input, .. }
+            | IRNode::FlatMap { input, .. } => Self::has_union(input),
+            IRNode::Join { left, right, .. }
+            | IRNode::Antijoin { left, right, .. }
+            | IRNode::JoinFlatMap { left, right, .. } => {
+                Self::has_union(left) || Self::has_union(right)
             }
         }
     }
@@ -662,15 +699,22 @@ impl JoinPlanner {
 
             for (i, var) in current_schema.iter().enumerate() {
                 if let Some(j) = next_schema.iter().position(|v| v == var) {
-                    left_keys.push(i);
-                    right_keys.push(j);
+                    // A variable repeated on the left (`r(X, Y, X)`) pairs with the
+                    // same right column only once: a right column is a key at most once.
+                    if !right_keys.contains(&j) {
+                        left_keys.push(i);
+                        right_keys.push(j);
+                    }
                 }
             }
 
-            // Build output schema (union of variables, shared vars once)
+            // Build output schema exactly as the executor lays out join results:
+            // all left columns followed by the non-key right columns. A right-hand
+            // column whose name repeats an earlier one (e.g. `r(X, X)`) is not a key
+            // and therefore still occupies a column.
             let mut output_schema = current_schema.clone();
-            for var in &next_schema {
-                if !output_schema.contains(var) {
+            for (j, var) in next_schema.iter().enumerate() {
+                if !right_keys.contains(&j) {
                     output_schema.push(var.clone());
                 }
             }
